@@ -100,6 +100,21 @@ func genPopHistory(r *vkit.Run, k int, rqs []requester, us []int) (variant strin
 		third.Spec.ECS = "198.19.200.0/24"
 		third.Spec.AD = true
 	}
+	// letter case: the clients of one cache key spell the name differently
+	switch (k / len(popVariants)) % 3 {
+	case 0: // first in mixed case, later ones in lower case / another mixed case
+		first.Spec.Spelling = mixCase(rng, name)
+		third.Spec.Spelling = mixCase(rng, name)
+		if third.Spec.Spelling == first.Spec.Spelling {
+			third.Spec.Spelling = strings.ToUpper(name)
+		}
+	case 1: // first in lower case, later ones in mixed / upper case
+		second.Spec.Spelling = mixCase(rng, name)
+		third.Spec.Spelling = strings.ToUpper(name)
+	default: // all three differ
+		first.Spec.Spelling = strings.ToUpper(name)
+		second.Spec.Spelling = mixCase(rng, name)
+	}
 	return variant, []popStep{first, second, third}
 }
 
@@ -200,6 +215,13 @@ func runCachePopulation(r *vkit.Run, scratch string, maxHints int) {
 				}
 				r.Violation(mm.key, "a client's response depends on which other client populated the cache entry: it differs from the response the same request gets on a fresh stack", info)
 				counters["cachepop_mismatches"]++
+			}
+		}
+		if populated {
+			for i := 1; i < len(steps); i++ {
+				if steps[i].Hit && steps[i].Spec.wireName() != steps[0].Spec.wireName() {
+					counters["cachepop_later_hits_spelled_differently_from_first"]++
+				}
 			}
 		}
 		if populated && laterHits > 0 {
